@@ -970,6 +970,66 @@ def user_engine_laws(M, rec, rng, n_nets, before_case=None, symvals=None):
         E.use(saved)
 
 
+def complex_step_turn_rates(M, rec, rng, prop, reps, what):
+    """Complex-step differentiation through the NumPy engine with respect to a turn rate (how a NumPy-only user gets exact
+    gradients for calibrating split ratios): one leaving link's rate is b + 1e-20j, the states are real; the imaginary parts
+    of the next first-segment densities, divided by 1e-20, are the sensitivities.  what="conservation": the inflows of the
+    leaving links still add up to what the entering links deliver, to first order; what="shares": each sensitivity is the
+    derivative of beta_i / sum(beta) * Q."""
+    import numpy as np
+
+    NE, CE = drive.engines(M)
+    h = 1e-20
+    T, tau, eta, kappa = 10 / 3600, 18 / 3600, 60.0, 40.0
+    for it in range(reps):
+        n_in = 1 if it % 2 == 0 else 2
+        k_out = rng.choice((2, 3))
+        mk = lambda nm, N_, lam_, beta=1.0: M.Link(N_, lam_, 1.0, 180.0, 33.5, 102.0, 1.867, beta, nm)  # noqa: E731
+        J = M.Node(name="J")
+        net = M.Network()
+        ups = []
+        for i in range(n_in):
+            u_ = mk(f"U{i}", rng.choice((1, 2)), rng.choice((2, 3)))
+            ups.append(u_)
+            net.add_path((M.Node(name=f"S{i}"), u_, J), origin=M.MainstreamOrigin(name=f"O{i}"))
+        betas = [round(rng.uniform(0.2, 2.0), 3) for _ in range(k_out)]
+        outs_ = []
+        for j in range(k_out):
+            l_ = mk(f"B{j}", rng.choice((1, 2)), rng.choice((1, 2)), (betas[j] + 1j * h) if j == 0 else betas[j])
+            outs_.append(l_)
+            net.add_path((J, l_, M.Node(name=f"X{j}")), destination=M.Destination(name=f"D{j}"))
+        ic = {}
+        Q = 0.0
+        for u_ in ups:
+            rho = np.array([rng.uniform(15.0, 60.0) for _ in range(u_.N)])
+            v = np.array([rng.uniform(40.0, 100.0) for _ in range(u_.N)])
+            ic[u_] = {"rho": rho, "v": v}
+            Q += rho[-1] * v[-1] * u_.lam
+        for l_ in outs_:
+            ic[l_] = {"rho": np.array([rng.uniform(10.0, 60.0) for _ in range(l_.N)]), "v": np.array([rng.uniform(40.0, 100.0) for _ in range(l_.N)])}
+        for o_ in net.origins:
+            ic[o_] = {"w": np.array([5.0]), "d": np.array([2500.0]), "v_ctrl": np.array([300.0])}
+        try:
+            net.step(init_conditions=ic, engine=NE(), T=T, tau=tau, eta=eta, kappa=kappa)
+            sens = [float(np.imag(np.asarray(l_.next_states["rho"]).ravel()[0])) / h * (l_.lam * l_.L / T) for l_ in outs_]  # d q_in,j / d beta_0
+        except Exception as e:
+            rec.count("complex_step_runs_raised")
+            rec.seen("complex_step_runs_raised", repr(e)[:100])
+            continue
+        rec.count("complex_step_runs")
+        S = sum(betas)
+        exact = [Q * (S - betas[0]) / S**2] + [-Q * betas[j] / S**2 for j in range(1, k_out)]
+        scale = Q / S
+        if what == "conservation":
+            if abs(sum(sens)) > 1e-9 * scale:
+                rec.violation(f"{prop}:numpy:node(n_in={'>=2' if n_in >= 2 else 1},n_out=>=2): to first order in a turn rate (complex-step derivative) the inflows of the leaving links "
+                              "do not add up to what the entering links deliver", {"turn_rates": betas, "sensitivities": sens, "their_sum": sum(sens), "Q": Q})
+        else:
+            if any(abs(a_ - b_) > 1e-9 * scale for a_, b_ in zip(sens, exact)):
+                rec.violation(f"{prop}:complex-step derivative with respect to a turn rate:numpy: the sensitivity of the shares is not that of beta_i / sum(beta)",
+                              {"turn_rates": betas, "sensitivities": sens, "derivative_of_the_share_formula": exact, "Q": Q})
+
+
 def closed_loop(M, rec, rng, n_sims, steps, on_step=None, before_case=None):
     """Closed-loop NumPy simulations: next states fed back, peaked demand profiles,
     piecewise-constant random controls."""
